@@ -145,7 +145,11 @@ fn measure(text: &str) -> Result<(u64, f64, bool), String> {
     });
     let work = allocations() - a0;
     match r {
-        Ok(accepted) => Ok((work, crate::infra::thread_cpu_s() - start, accepted)),
+        Ok(accepted) => {
+            let secs = crate::infra::thread_cpu_s() - start;
+            crate::infra::max_named("max.rung_user_cpu_ms", (secs * 1000.0) as u64);
+            Ok((work, secs, accepted))
+        }
         Err(m) => Err(m),
     }
 }
@@ -163,7 +167,7 @@ fn ladder_sweep(tier: Tier) -> Sweep {
         }
     }
     let max_n = tier.pick(512, 4096);
-    let cap_s = tier.pick(8.0, 40.0);
+    let cap_s = tier.pick(8.0, 90.0);
     let fams2 = fams.clone();
     Sweep::new(
         "input families x variants, ladder of sizes",
@@ -262,7 +266,7 @@ fn ladder_sweep(tier: Tier) -> Sweep {
             format!("family {}/{} variant {} e.g. n=3: {}", ws[a].name, ws[b].name, VARIANT_NAMES[idx as usize % VARIANTS], family(&ws, a, b, 3).join(" "))
         },
     )
-    .with_timeout(tier.pick(20, 200))
+    .with_timeout(tier.pick(20, 600))
     .with_post_abort(|_idx, kind| AbortVerdict::Violation {
         sub: "no-termination-within-cap".to_owned(),
         input: String::new(),
@@ -323,7 +327,7 @@ fn group_program(kinds: usize, offsets: usize, body_last: bool, n: usize) -> Vec
 
 fn group_sweep(tier: Tier) -> Sweep {
     let max_n = tier.pick(256, 1024);
-    let cap_s = tier.pick(8.0, 40.0);
+    let cap_s = tier.pick(8.0, 90.0);
     let describe = |idx: u64| {
         let v = idx as usize % 3;
         let body_last = (idx / 3) % 2 == 1;
@@ -393,7 +397,7 @@ fn group_sweep(tier: Tier) -> Sweep {
             format!("group family kinds={} offsets-mask={offsets} body_last={body_last} variant={} e.g. n=4: {}", KIND_PATTERNS[kinds], GROUP_VARIANTS[v], group_program(kinds, offsets, body_last, 4).join(" "))
         },
     )
-    .with_timeout(tier.pick(20, 200))
+    .with_timeout(tier.pick(20, 600))
     .with_post_abort(|_idx, kind| AbortVerdict::Violation {
         sub: "no-termination-within-cap".to_owned(),
         input: String::new(),
@@ -425,7 +429,7 @@ const LEXICAL: [(&str, &str, &str, &str, bool); 14] = [
 fn lexical_sweep(tier: Tier) -> Sweep {
     let max_n = tier.pick(4096, 65536);
     let max_small = tier.pick(1024, 4096);
-    let cap_s = tier.pick(8.0, 40.0);
+    let cap_s = tier.pick(8.0, 90.0);
     Sweep::new(
         "lexical families (one long token or layout run), ladder of sizes",
         LEXICAL.len() as u64,
@@ -464,7 +468,7 @@ fn lexical_sweep(tier: Tier) -> Sweep {
         },
         move |idx| format!("lexical family {}", LEXICAL[idx as usize].0),
     )
-    .with_timeout(tier.pick(30, 200))
+    .with_timeout(tier.pick(30, 600))
     .with_post_abort(|_idx, kind| AbortVerdict::Violation {
         sub: "no-termination-within-cap".to_owned(),
         input: String::new(),
@@ -486,7 +490,7 @@ impl Prop for C17 {
     fn evidence(&self, tier: Tier) -> EvidenceSpec {
         EvidenceSpec {
             level: "exploration",
-            rule: "all input families of period 1 and 2 over 41 syntactic wrappers (parentheses, sums left/right, differences, negation, products, application left/right, comparison, let / annotated let / let nested in a definition, if nested in the else / then / condition position, the four lambda forms and the annotation position, pi, arrows left/right, application / sum / product chains ending in two parenthesised operands nested through either of them, a parenthesised operand in the middle of a chain for ten pairs of operators around it, and groups of two and three members whose body is a parenthesised group of its own or whose first definition is one), i.e. 41 + 1640 families, each in 8 variants (well formed; suffix dropped; last 1, 2, 3 tokens dropped; a wrong token planted at 1/4, 1/2, 3/4), on the ladder n = 1, 2, 4, .., 512 (quick) / 4096 (thorough); the real tokenize+parse is run on a 2 GiB stack and its heap allocations counted; every rung must finish within the cap (CPU time of the parsing thread, so machine load does not matter), every rung must satisfy allocations <= 40 tokens^2 + 200000 (measured on the unchanged tree: <= 2 tokens^2), and well-formed variants must satisfy work(2n) <= 6 work(n) from n >= 64 (measured: 2.00). Second sweep, long definition sequences as reference graphs: groups of n = 1, 2, 4, .., 256 (quick) / 1024 (thorough) definitions where definition i mentions d(i+o) for every o of an offset set, for all 31 non-empty offset sets within {-2,-1,+1,+2,+3}, three kind patterns (all lambdas; a non-value head then lambdas; all non-values), body d0 or the last definition, three variants (complete, last token dropped, wrong token in the middle) — 558 families x variants under the same time cap and envelope (measured: <= 0.7 tokens^2). Third sweep, 14 lexical families (one long identifier, literal, comment, run of blanks / tabs / line breaks / CRLF / comment lines, one definition per line, stray symbols, operators without operands) to 4096 / 65536 repetitions (1024 / 4096 where every diagnostic quotes the line), with characters in the place of tokens. evaluations = families x variants; non-trivial = those whose whole ladder was measured".to_owned(),
+            rule: "all input families of period 1 and 2 over 41 syntactic wrappers (parentheses, sums left/right, differences, negation, products, application left/right, comparison, let / annotated let / let nested in a definition, if nested in the else / then / condition position, the four lambda forms and the annotation position, pi, arrows left/right, application / sum / product chains ending in two parenthesised operands nested through either of them, a parenthesised operand in the middle of a chain for ten pairs of operators around it, and groups of two and three members whose body is a parenthesised group of its own or whose first definition is one), i.e. 41 + 1640 families, each in 8 variants (well formed; suffix dropped; last 1, 2, 3 tokens dropped; a wrong token planted at 1/4, 1/2, 3/4), on the ladder n = 1, 2, 4, .., 512 (quick) / 4096 (thorough); the real tokenize+parse is run on a 2 GiB stack and its heap allocations counted; every rung must finish within the cap (user-mode CPU time of the parsing thread, so machine load and kernel-side memory contention do not matter), every rung must satisfy allocations <= 40 tokens^2 + 200000 (measured on the unchanged tree: <= 2 tokens^2), and well-formed variants must satisfy work(2n) <= 6 work(n) from n >= 64 (measured: 2.00). Second sweep, long definition sequences as reference graphs: groups of n = 1, 2, 4, .., 256 (quick) / 1024 (thorough) definitions where definition i mentions d(i+o) for every o of an offset set, for all 31 non-empty offset sets within {-2,-1,+1,+2,+3}, three kind patterns (all lambdas; a non-value head then lambdas; all non-values), body d0 or the last definition, three variants (complete, last token dropped, wrong token in the middle) — 558 families x variants under the same time cap and envelope (measured: <= 0.7 tokens^2). Third sweep, 14 lexical families (one long identifier, literal, comment, run of blanks / tabs / line breaks / CRLF / comment lines, one definition per line, stray symbols, operators without operands) to 4096 / 65536 repetitions (1024 / 4096 where every diagnostic quotes the line), with characters in the place of tokens. evaluations = families x variants; non-trivial = those whose whole ladder was measured".to_owned(),
             assumptions: vec![
                 "a growth law on a finite ladder is evidence of the law, not a proof for all n".to_owned(),
                 "heap allocations are proportional to parse-function executions (every constructed term, cache insert and error closure allocates)".to_owned(),
@@ -497,7 +501,7 @@ impl Prop for C17 {
             transitions: None,
             traces: None,
             exhaustive: true,
-            bounds: json!({"max_n": tier.pick(512, 4096), "time_cap_s": tier.pick(8.0, 40.0), "wellformed_growth_factor": 6, "envelope": "40*T^2+200000"}),
+            bounds: json!({"max_n": tier.pick(512, 4096), "time_cap_s": tier.pick(8.0, 90.0), "wellformed_growth_factor": 6, "envelope": "40*T^2+200000"}),
             minimums: vec![("wellformed_accepted", 5000), ("malformed_rejected", 10_000), ("rungs", 40_000), ("group_families_x_variants", 558), ("groups_accepted", 500), ("groups_rejected", 500)],
         }
     }
